@@ -40,6 +40,10 @@ def authchain__VerifyEventAuthChain : List String := [
   "return nil"
 ]
 
+def authchain_type_EventProvider : List String := [
+  "type EventProvider func(roomVer RoomVersion, eventIDs []string) ([]PDU, error)"
+]
+
 def authstate_FederatedStateProvider_StateBeforeEvent : List String := [
   "func func(ctx context.Context, roomVer RoomVersion, event PDU, eventIDs []string) (map[string]PDU, error)",
   "res, err := p.FedClient.LookupState(ctx, p.Origin, p.Server, event.RoomID().String(), event.EventID(), roomVer)",
@@ -292,6 +296,30 @@ def authstate_stateResponseImpl_GetStateEvents : List String := [
   "return s.stateEvents"
 ]
 
+def authstate_type_FederatedStateClient : List String := [
+  "type FederatedStateClient interface { LookupState(ctx context.Context, origin, s spec.ServerName, roomID, eventID string, roomVersion RoomVersion) (res StateResponse, err error) LookupStateIDs(ctx context.Context, origin, s spec.ServerName, roomID, eventID string) (res StateIDResponse, err error) }"
+]
+
+def authstate_type_FederatedStateProvider : List String := [
+  "type FederatedStateProvider struct { FedClient FederatedStateClient Origin spec.ServerName Server spec.ServerName RememberAuthEvents bool EventToAuthEventIDs map[string][]string AuthEventMap map[string]PDU }"
+]
+
+def authstate_type_StateIDResponse : List String := [
+  "type StateIDResponse interface { GetStateEventIDs() []string GetAuthEventIDs() []string }"
+]
+
+def authstate_type_StateProvider : List String := [
+  "type StateProvider interface { StateIDsBeforeEvent(ctx context.Context, event PDU) ([]string, error) StateBeforeEvent(ctx context.Context, roomVer RoomVersion, event PDU, eventIDs []string) (map[string]PDU, error) }"
+]
+
+def authstate_type_StateResponse : List String := [
+  "type StateResponse interface { GetAuthEvents() EventJSONs GetStateEvents() EventJSONs }"
+]
+
+def authstate_type_stateResponseImpl : List String := [
+  "type stateResponseImpl struct { authEvents EventJSONs stateEvents EventJSONs }"
+]
+
 def backfill__RequestBackfill : List String := [
   "func func(ctx context.Context, origin spec.ServerName, b BackfillRequester, keyRing JSONVerifier, roomID string, ver RoomVersion, fromEventIDs []string, limit int, userIDForSender spec.UserIDForSender) ([]PDU, error)",
   "if len(fromEventIDs) == 0 {",
@@ -329,6 +357,14 @@ def backfill__RequestBackfill : List String := [
   "}",
   "}",
   "return ReverseTopologicalOrdering(result, TopologicalOrderByPrevEvents), lastErr"
+]
+
+def backfill_type_BackfillClient : List String := [
+  "type BackfillClient interface { Backfill(ctx context.Context, origin, server spec.ServerName, roomID string, limit int, fromEventIDs []string) (Transaction, error) }"
+]
+
+def backfill_type_BackfillRequester : List String := [
+  "type BackfillRequester interface { StateProvider BackfillClient ServersAtEvent(ctx context.Context, roomID, eventID string) []spec.ServerName ProvideEvents(roomVer RoomVersion, eventIDs []string) ([]PDU, error) }"
 ]
 
 def load_AuthChainErr_Error : List String := [
@@ -422,6 +458,26 @@ def load__NewEventsLoader : List String := [
   "return &EventsLoader{roomVer: roomVer, keyRing: keyRing, provider: provider, stateProvider: stateProvider, performSoftFailCheck: performSoftFailCheck}"
 ]
 
-def functions : List String := ["authchain.go:.VerifyEventAuthChain", "authstate.go:FederatedStateProvider.StateBeforeEvent", "authstate.go:FederatedStateProvider.StateIDsBeforeEvent", "authstate.go:.CheckSendJoinResponse", "authstate.go:.CheckStateResponse", "authstate.go:.LineariseStateResponse", "authstate.go:.VerifyAuthRulesAtState", "authstate.go:.checkAllowedByAuthEvents", "authstate.go:stateResponseImpl.GetAuthEvents", "authstate.go:stateResponseImpl.GetStateEvents", "backfill.go:.RequestBackfill", "load.go:AuthChainErr.Error", "load.go:AuthChainErr.Is", "load.go:AuthRulesErr.Error", "load.go:AuthRulesErr.Is", "load.go:EventsLoader.LoadAndVerify", "load.go:SignatureErr.Error", "load.go:SignatureErr.Is", "load.go:.NewEventsLoader"]
+def load_type_AuthChainErr : List String := [
+  "type AuthChainErr struct{ err error }"
+]
+
+def load_type_AuthRulesErr : List String := [
+  "type AuthRulesErr struct{ err error }"
+]
+
+def load_type_EventLoadResult : List String := [
+  "type EventLoadResult struct { Event PDU Error error SoftFail bool }"
+]
+
+def load_type_EventsLoader : List String := [
+  "type EventsLoader struct { roomVer RoomVersion keyRing JSONVerifier provider EventProvider stateProvider StateProvider performSoftFailCheck bool }"
+]
+
+def load_type_SignatureErr : List String := [
+  "type SignatureErr struct{ err error }"
+]
+
+def functions : List String := ["authchain.go:.VerifyEventAuthChain", "authchain.go:type EventProvider", "authstate.go:FederatedStateProvider.StateBeforeEvent", "authstate.go:FederatedStateProvider.StateIDsBeforeEvent", "authstate.go:.CheckSendJoinResponse", "authstate.go:.CheckStateResponse", "authstate.go:.LineariseStateResponse", "authstate.go:.VerifyAuthRulesAtState", "authstate.go:.checkAllowedByAuthEvents", "authstate.go:stateResponseImpl.GetAuthEvents", "authstate.go:stateResponseImpl.GetStateEvents", "authstate.go:type FederatedStateClient", "authstate.go:type FederatedStateProvider", "authstate.go:type StateIDResponse", "authstate.go:type StateProvider", "authstate.go:type StateResponse", "authstate.go:type stateResponseImpl", "backfill.go:.RequestBackfill", "backfill.go:type BackfillClient", "backfill.go:type BackfillRequester", "load.go:AuthChainErr.Error", "load.go:AuthChainErr.Is", "load.go:AuthRulesErr.Error", "load.go:AuthRulesErr.Is", "load.go:EventsLoader.LoadAndVerify", "load.go:SignatureErr.Error", "load.go:SignatureErr.Is", "load.go:.NewEventsLoader", "load.go:type AuthChainErr", "load.go:type AuthRulesErr", "load.go:type EventLoadResult", "load.go:type EventsLoader", "load.go:type SignatureErr"]
 
 end VPins.C14
